@@ -249,15 +249,9 @@ def rake_of(spec, conv):
         kw = dict(percentage=pct, no_flop_no_drop=nfnd)
         if cap is not None:
             kw['cap'] = conv(cap)
-        f = partial(pk.utilities.rake, **kw)
-        if kind is int:
-            # integral chips: rake rounded down to whole chips
-            def irake(amount, state=None, _f=f):
-                r, u = _f(amount, state)
-                r = int(r)
-                return r, amount - r
-            return irake
-        return f
+        # the library's own rake function configured as its documentation shows (functools.partial), used as is: both parts
+        # of its answer reach the state
+        return partial(pk.utilities.rake, **kw)
     if spec[0] == 'min':
         return partial(_min_rake, m=conv(spec[1]))
     raise ValueError(spec)
